@@ -456,7 +456,7 @@ def getattr_(R, E, base, attr, node):
         if attr in base.fields:
             return base.fields[attr]
         if attr == "__class__":
-            return base.cls
+            return base.cls if isinstance(base.cls, RepoClass) else ClassOf(base)
         if attr == "__dict__":
             return base.fields
         if isinstance(base.cls, RepoClass):
@@ -521,6 +521,13 @@ def getattr_(R, E, base, attr, node):
 _NO = object()
 
 
+class ClassOf:
+    """type(obj) of an opaque object"""
+
+    def __init__(self, obj):
+        self.obj = obj
+
+
 class MethodRef:
     def __init__(self, recv, name):
         self.recv, self.name = recv, name
@@ -536,6 +543,8 @@ def has_attr(R, E, base, attr):
             return False
         r = R.opaque_hasattr(E, base, attr)
         return r
+    if isinstance(base, ClassOf):
+        return has_attr(R, E, base.obj, attr) and not (attr.endswith("_") and not attr.startswith("_"))
     if isinstance(base, NdArr):
         return attr in ("shape", "dtype", "T", "ravel", "copy", "sum", "astype", "reshape", "mean", "tolist")
     if isinstance(base, Opaque):
